@@ -24,6 +24,7 @@ int run_perm_readers(const vf::Args&);
 int run_root_race(const vf::Args&);
 int run_preempt(const vf::Args&);
 int run_parent_race(const vf::Args&);
+int run_preempt_writer(const vf::Args&);
 
 int main(int argc, char** argv) {
     google::InitGoogleLogging(argv[0]);
@@ -88,6 +89,7 @@ int main(int argc, char** argv) {
     if (mode == "root_race") { return run_root_race(args); }
     if (mode == "preempt") { return run_preempt(args); }
     if (mode == "parent_race") { return run_parent_race(args); }
+    if (mode == "preempt_writer") { return run_preempt_writer(args); }
     fprintf(stderr, "unknown --mode %s\n", mode.c_str());
     return 2;
 }
